@@ -244,16 +244,29 @@ def launchConsumer (s : State) (c : CId) (env : LaunchEnv) : Option State :=
   | none => none
   | some x => launchBind s c x env
 
-/-- BeginBlockLaunchConsumers: `envOf c` gives the environment facts of each due consumer -/
-def beginBlockLaunch (s : State) (envOf : CId → LaunchEnv) : State :=
+/-- the fall-back after a failed launch: spawn time cleared, phase registered.  The code re-writes
+    the initialization parameters through SetConsumerInitializationParameters, which validates the
+    initial height against the chain id: `none` = that write fails and BeginBlock returns an error. -/
+def launchFallback (s : State) (c : CId) : Option State :=
+  let x := s.get c
+  if x.initRev != x.chainRev then none
+  else some (s.set { x with spawn := 0, phase := .registered })
+
+/-- BeginBlockLaunchConsumers: `envOf c` gives the environment facts of each due consumer;
+    `none` = the block fails -/
+def beginBlockLaunch? (s : State) (envOf : CId → LaunchEnv) : Option State :=
   let r := tqConsume s.spawnQ s.now 200
   let s := { s with spawnQ := r.2 }
-  r.1.foldl (fun s c =>
-    match launchConsumer s c (envOf c) with
-    | some s' => s'
-    | none =>
-      let x := s.get c
-      s.set { x with spawn := 0, phase := .registered }) s
+  r.1.foldl (fun (acc : Option State) c =>
+    match acc with
+    | none => none
+    | some s =>
+      match launchConsumer s c (envOf c) with
+      | some s' => some s'
+      | none => launchFallback s c) (some s)
+
+def beginBlockLaunch (s : State) (envOf : CId → LaunchEnv) : State :=
+  (beginBlockLaunch? s envOf).getD s
 
 /-! ### stop and removal -/
 
